@@ -201,6 +201,15 @@ def run(ck):
         val_of_it = lambda n: is_call(n, "value") and is_ref_to(skip_copies(n).get("obj"), itdecl)
         inloop = [s for s in sets if any(a.get("id") == loop["id"] for a in fn.ancestors(s["node"]))]
         generic = [s for s in inloop if key_of_it(s["keynode"]) and is_call(s["value"], "QJsonValue::fromVariant") and val_of_it(skip_copies(s["value"])["args"][0])]
+        if not generic:
+            # QVariant::toJsonValue() / value<QJsonValue>() answer Undefined for every type that is not JSON-native (date-time, URL, UUID, byte array, char ...),
+            # and storing Undefined through QJsonObject::operator[] / insert() removes the key: such an attribute appears nowhere in the event
+            lossy = [s_ for s_ in inloop if key_of_it(s_["keynode"]) and is_call(s_["value"], ("QVariant::toJsonValue", "QVariant::toJsonObject", "QVariant::toJsonArray", "QVariant::value")) and
+                     val_of_it(skip_copies(skip_copies(s_["value"]).get("obj")))]
+            if lossy:
+                ck.ob("C18-O2", sitestr(fn, lossy[0]["node"]), False, "custom attributes are converted with %s(): it answers Undefined for every value type that is not JSON-native (QDateTime, QUrl, QUuid, QByteArray, QChar, "
+                      "QDate ...), and storing Undefined removes the key - such an attribute appears nowhere in the event (QJsonValue::fromVariant() stringifies them)" %
+                      strip_tmpl(skip_copies(lossy[0]["value"]).get("callee") or "").split("::")[-1], key="format|attribute-conversion")
         ck.require(len(generic) >= 1, "the loop no longer inserts (it.key(), fromVariant(it.value()))")
         for s in inloop:
             if s not in generic:
